@@ -25,12 +25,54 @@ impl Prop for C15 {
     }
     fn budget(&self, tier: Tier) -> u64 {
         match tier {
-            Tier::Quick => 100_000,
+            Tier::Quick => 150_000,
             Tier::Thorough => 3_000_000,
         }
     }
     fn required_labels(&self) -> Vec<&'static str> {
         vec!["uuid_query", "version_query", "types_query", "types_len_30", "types_len_0", "uuid_updates_with_traffic", "nontrivial"]
+    }
+    fn enumerate(&self, _tier: Tier, shard: usize, nshards: usize, f: &mut dyn FnMut(Case)) {
+        use crate::calls::*;
+        use crate::refmodel::build_control_request;
+        let a = 0x23u8;
+        let mut idx = 0usize;
+        for len in 0..=30usize {
+            for variant in 0..8u8 {
+                idx += 1;
+                if idx % nshards != shard {
+                    continue;
+                }
+                let types: Vec<u8> = (0..len).map(|i| (i as u8).wrapping_mul(29).wrapping_add(variant.wrapping_mul(31)) ^ 0x5A).collect();
+                let cfg = CtxCfg { addr: a, msg_types: types, vendors: vec![(0, 0x1234, 0xAB)] };
+                let s = 0x30 + variant;
+                let q = |iid: u8, cmd: u8, data: &[u8]| Op::Process { bytes: build_control_request(a, s, a, s, iid, cmd, data), cap: 64, fill: 0xEE };
+                let mut u1 = [0u8; 16];
+                let mut u2 = [0u8; 16];
+                for i in 0..16 {
+                    u1[i] = (i as u8) ^ variant.wrapping_mul(17);
+                    u2[i] = 0xFF - (i as u8) * 3 - variant;
+                }
+                let ops = vec![
+                    q(1, 0x03, &[]),
+                    Op::SetUuid(u1),
+                    q(2, 0x03, &[]),
+                    q(3, 0x05, &[]),
+                    q(4, 0x04, &[variant.wrapping_mul(37)]),
+                    q(5, 0x01, &[0x00, 0x42]),
+                    q(6, 0x10, &[0xAA; 17]),
+                    Op::SetUuid(u2),
+                    q(7, 0x06, &[0x00]),
+                    q(8, 0x03, &[]),
+                    q(9, 0x05, &[]),
+                    q(10, 0x04, &[len as u8]),
+                ];
+                f(Case { cfg, ops });
+            }
+        }
+    }
+    fn enumerated_desc(&self, _tier: Tier) -> Option<String> {
+        Some("every message-type list length 0..30 x 8 content/UUID variants, each with the fixed history: UUID query (before any update), update, UUID / type / version queries, Set Endpoint ID, Resolve-UUID-shaped request, second update, vendor query, UUID / type / version queries again".into())
     }
     fn run(&self, case: &Case) -> CaseResult {
         let mut r = CaseResult::default();
